@@ -92,13 +92,13 @@ def plan(tier, seed):
     q = tier == 'quick'
     cases = []
     base = seed * 1000003
-    for i in range(160 if q else 2400):
+    for i in range(480 if q else 2400):
         cases.append({'kind': 'xfer', 'seed': base + i, 'idx': i, 'tier': tier})
-    for i in range(96 if q else 1200):
+    for i in range(288 if q else 1200):
         cases.append({'kind': 'life', 'seed': base + i, 'idx': i, 'tier': tier})
-    for i in range(192 if q else 2560):
+    for i in range(576 if q else 2560):
         cases.append({'kind': 'slc', 'seed': base + i, 'idx': i, 'tier': tier})
-    for i in range(64 if q else 800):
+    for i in range(192 if q else 800):
         cases.append({'kind': 'agraw', 'seed': base + i, 'idx': i, 'tier': tier})
     for i in range(16 if q else 200):
         cases.append({'kind': 'hfraw', 'seed': base + i, 'idx': i, 'tier': tier})
